@@ -19,7 +19,7 @@ PARTIAL = {
     "C11": "Proved: evaluation returns the environment it was given (all trees, environments, fuel), parameters are scoped, evaluation is repeatable.",
     "C12": "Proved: frame property of every statement, clear keeps exactly the constants, a copied function is independent of the original. C12Heap: a handle-level model of the statement interpreter (function values as shared mutable objects, in-place definition and deletion, copy on assignment) is proved to keep 'no two names share a handle' along every history and to refine the value model (same lines, same bindings), and proved to break both without the copy (the repaired defect); the same no-alias invariant is monitored on the real Rc handles by the harness after every statement.",
     "C13": "Proved: first-match dispatch by arity and literals, binding of named parameters, define replaces in place or appends, delete removes exactly one, reachable signature lists are non-empty and pairwise inequivalent, listing order (Kernel.eq = equality is an explicit hypothesis where needed in C13; C13Per re-proves distinctness, in-place replacement and exact deletion under the hypothesis that Kernel.eq is a partial equivalence, reflexive off NaN, which the bit-level model of binary64 == is proved to satisfy while the old hypothesis is proved false for it; number literals are proved never to be NaN; C13PerSession: literal parameters are decimal number tokens, so along every session with no hypothesis on literals every stored signature is self-equivalent and a redefinition replaces in place).",
-    "C14": "Proved: every operator-level diagnostic carries its own token's position, evaluation order (left before right, callee before arguments, entries left to right), statement-level blame, exactly one line per failing statement and the run continues, C14_eval_blame for whole trees; parse errors carry the first unconsumed token.",
+    "C14": "Proved: every operator-level diagnostic carries its own token's position, evaluation order (left before right, callee before arguments, entries left to right), statement-level blame, exactly one line per failing statement and the run continues, C14_eval_blame for whole trees; parse errors carry the first unconsumed token. C14Render: the printed frame `Line l, Column c :: msg` is inside the model with a reader proved to return (l, c, msg) for every position and message; every positioned diagnostic of processText renders to a line that reads back as the stored position; the model's reader is run on every rendered diagnostic the streams observe (driver command diagline).",
     "C15": "Proved under an explicit FmtSpec on the formatter of reals, which is discharged for binary64 bit patterns with the executable model's own printer (C15Bits: every canonical pattern's text reads back, every complex pair reads back exactly except the sign of a zero part): an independent reader inverts the complex printer on all nine forms; measurement form; distinct symbols; matrix structure; built-in marker. The model's float printer is proved to read back to the same bits for every positive finite double, on the digits and on the text (C04Round: shortest_roundtrip, fmtBits_reads_back); Rust's Display for f64 is compared with it byte for byte by the fmt and print streams, and by an independent reader.",
     "C16": "Proved for the model of main.rs: trailing newline, shared environment, exit in any letter case, line isolation, tab size changes positions only (scanner and parser commute with position erasure), and C16_three_modes: well-formed lines given as a file, as the expression, or typed line by line produce the same outputs up to positions and the same final bindings (scanner and parser compositional over lines; evaluation commutes with position erasure). clap, rustyline and the real process are observed only through the binary (front stream: binary vs in-process prediction vs model, cross-mode comparison).",
     "C17": "Proved: inserting blanks at any token boundary preserves kinds, lexemes and values (general, discharged for the shipped Unicode table); removing a blank run is harmless whenever a decidable adjacency rule (needsSepAt) says the neighbours cannot fuse; delimiter flips and extra delimiters do not change the parse. C17Meaning lifts this from tokens to meaning: expressions, statements, function values and environments that differ only in the line/column of their tokens evaluate to related values, print equal text, report the same diagnostics up to line/column and end in related environments (logical relation over eval, step and runStmts). C17MeaningText: the same end to end on texts — blank insertion, blank removal and delimiter variants give processText runs that print the same value texts, the same diagnostics up to line/column, and related tables.",
